@@ -117,6 +117,15 @@ func gen(r *hx.Rng, tier string, i int) []hx.Zs {
 		shapes["overlap-histories"]++
 		return ti.GenOverlapHistory(r, 8)
 	}
+	if i%25 == 11 || i%25 == 19 {
+		// sub-element deletes on elements that share a value object / refused with a protected element
+		ti := flagged[(i/25)%len(flagged)]
+		fam := 3 * (i % 2)
+		perType[string(ti.Function)]++
+		perFamily[fmt.Sprint(fam)]++
+		shapes["sub-element-histories"]++
+		return ti.GenSubElementHistory(r, fam)
+	}
 	var ti *upd.TypeInfo
 	if i%8 != 7 {
 		ti = flagged[i%len(flagged)]
@@ -127,7 +136,7 @@ func gen(r *hx.Rng, tier string, i int) []hx.Zs {
 	if r.Chance(3, 5) {
 		fam = 3
 	}
-	cfg := upd.GenCfg{Family: fam, RemotePct: 55, IllPct: 0, FlagFields: true, MaxLen: 7}
+	cfg := upd.GenCfg{Family: fam, RemotePct: 55, IllPct: 0, FlagFields: true, SubElems: true, MaxLen: 7}
 	h := ti.GenHistory(r, cfg)
 	perType[string(ti.Function)]++
 	perFamily[fmt.Sprint(fam)]++
